@@ -105,7 +105,7 @@ def eval_profiles(case):
     finally:
         plt.close(fig)
         plt.close("all")
-    return {"violations": viol, "outcome": "profiles", "key": ("p", case["res"], every, rescale)}
+    return {"violations": viol, "outcome": "profiles", "key": ("p", case["res"], case["n"], every, rescale, bool(case.get("kwargs")), bool(case.get("own_axes")))}
 
 
 def eval_recovery(case):
@@ -298,6 +298,10 @@ def cases(tier, seed):
                     "kwargs": {"x_max": 0.5, "y_max": 0.7, "plot_kwargs": {"linewidth": 0.5, "linestyle": "--"}}})
         out.append({"kind": "profiles", "res": r, "n": n, "every": 2, "rescale": rs, "kwargs": {"x_max": 2.0}, "own_axes": True})
         out.append({"kind": "profiles", "res": r, "n": 5001, "rescale": rs, "default_every": True})
+        # many profiles on one axes: a small stride on a longer run (every k-th profile means every k-th, however many)
+        out.append({"kind": "profiles", "res": r, "n": 240, "every": 1, "rescale": rs})
+        out.append({"kind": "profiles", "res": r, "n": 240, "every": 2, "rescale": rs})
+        out.append({"kind": "profiles", "res": r, "n": 1501, "every": 3, "rescale": rs})
     for r in ["ideal", "gas"]:
         out.append({"kind": "recovery", "res": r, "n": 5001, "ticks": False, "history": None})
     for r, tk, h in itertools.product(["ideal", "gas"], [False, True], [None, "density-first"]):
